@@ -15,7 +15,10 @@ normalisation functions of `internal/agdnet/agdnet.go`.
   driver and characterised by its own theorem.
 * `wrap` is the skeleton of `Middleware.Wrap` up to the call of
   `serveWithRatelimiting`, with an *effect log* (responses written by the
-  middleware itself, calls of the next stage).
+  middleware itself, calls of the next stage), the error it returns and the
+  request information it hands to the next stage; `wire` adds what the server
+  does with a returned error (SERVFAIL).
+* `fillInfo` is `newRequestInfo` over the pooled `agd.RequestInfo`.
 -/
 namespace Agd.Access
 
@@ -208,8 +211,12 @@ structure Req where
   port : Nat
   qname : String
   qtype : Nat
+  /-- Question class; access control never looks at it. -/
+  qclass : Nat := 1
   /-- ASN of the GeoIP location of the client address, if there is a location. -/
   asn : Option Nat
+  /-- The request carries a well-formed EDNS Client Subnet option. -/
+  ecsOk : Bool := false
   /-- The request carries a malformed EDNS Client Subnet option. -/
   ecsBad : Bool
   dev : DevRes
@@ -218,7 +225,7 @@ inductive Reason where
   | globalIP | globalHost | profile | pass
 deriving Repr, DecidableEq
 
-/-- `ri.DeviceData()`'s profile, as far as access is concerned. -/
+/-- `ri.DeviceData()`'s profile, as far as access is concerned: only `*DeviceResultOK` has one. -/
 def DevRes.profAcc : DevRes → Option ProfAcc
   | .ok (some p) => some p
   | _ => Option.none
@@ -234,42 +241,87 @@ def accessReason (g : Global) (r : Req) : Reason :=
 
 def blocked (g : Global) (r : Req) : Bool := accessReason g r != .pass
 
-/-- What the middleware itself does that is visible outside: it writes a FORMERR, or it hands the
-request to the next stage (rate limiting and everything behind it). -/
+/-- What is visible outside the middleware: it writes a FORMERR, it hands the request to the next
+stage (rate limiting and everything behind it), or — `servfail` — the *server* writes a SERVFAIL
+because the handler returned an error (`ServerBase.serveDNSMsgInternal`). -/
 inductive Effect where
   | formerr
   | next
+  | servfail
 deriving Repr, DecidableEq
+
+/-- Kind of the device result as the next stage finds it in `RequestInfo.DeviceResult`. -/
+inductive DevKind where
+  | none | ok | authFail | unknownDedicated | error
+deriving Repr, DecidableEq
+
+def DevRes.kind : DevRes → DevKind
+  | .none => .none
+  | .ok _ => .ok
+  | .authFail => .authFail
+  | .unknownDedicated => .unknownDedicated
+  | .error => .error
+
+/-- The part of `agd.RequestInfo` that `newRequestInfo` and `Wrap` fill in from the request itself. -/
+structure RI where
+  /-- `NormalizeDomain(q.Name)`: empty for the root. -/
+  host : String
+  qtype : Nat
+  qclass : Nat
+  remote : Addr
+  /-- ASN of `ri.Location`. -/
+  asn : Option Nat
+  /-- `ri.ECS != nil`. -/
+  ecs : Bool
+  dev : DevKind
+deriving Repr, DecidableEq
+
+/-- `newRequestInfo` followed by `ri.Location, ri.ECS = loc, ecs`: every field comes from the current
+request (nothing survives from the pooled structure). -/
+def reqInfo (r : Req) : RI :=
+  { host := normDomain r.qname, qtype := r.qtype, qclass := r.qclass, remote := r.addr, asn := r.asn,
+    ecs := r.ecsOk && !r.ecsBad, dev := r.dev.kind }
 
 structure Out where
   effects : List Effect
   /-- The handler returned a non-nil error of its own (not one from the next stage). -/
   err : Bool
   why : String
+  /-- The request information put into the context of the next stage, when it is called. -/
+  info : Option RI := none
 deriving Repr, DecidableEq
 
-/-- `Middleware.Wrap`'s handler. -/
+/-- `Middleware.Wrap`'s handler: spoofed port, access (global address, global name, profile), device
+result, malformed ECS, next stage — in this order. -/
 def wrap (g : Global) (r : Req) : Out :=
   if r.port == 0 then { effects := [], err := false, why := "spoof" }
   else
-    match r.dev with
-    | .unknownDedicated => { effects := [], err := false, why := "unknown-dedicated" }
-    | .error => { effects := [], err := true, why := "device-error" }
-    | _ =>
-      match accessReason g r with
-      | .globalIP => { effects := [], err := false, why := "global-ip" }
-      | .globalHost => { effects := [], err := false, why := "global-host" }
-      | .profile => { effects := [], err := false, why := "profile" }
-      | .pass =>
+    match accessReason g r with
+    | .globalIP => { effects := [], err := false, why := "global-ip" }
+    | .globalHost => { effects := [], err := false, why := "global-host" }
+    | .profile => { effects := [], err := false, why := "profile" }
+    | .pass =>
+      match r.dev with
+      | .unknownDedicated => { effects := [], err := false, why := "unknown-dedicated" }
+      | .error => { effects := [], err := true, why := "device-error" }
+      | _ =>
         if r.ecsBad then { effects := [.formerr], err := true, why := "formerr" }
-        else { effects := [.next], err := false, why := "next" }
+        else { effects := [.next], err := false, why := "next", info := some (reqInfo r) }
+
+/-- Everything the client and the later stages can observe of one request: the middleware's own effects
+followed by the server's SERVFAIL when the handler returned an error. -/
+def wire (g : Global) (r : Req) : List Effect :=
+  (wrap g r).effects ++ (if (wrap g r).err then [.servfail] else [])
 
 /-! ## Histories against an arbitrary downstream -/
 
 /-- What the client gets. -/
 inductive Resp (ρ : Type) where
   | nothing
+  /-- FORMERR written by the middleware (followed by the server's SERVFAIL for the returned error). -/
   | formerr
+  /-- SERVFAIL written by the server for a device-finder error. -/
+  | servfail
   | fromNext (o : Option ρ)
 
 /-- One request through the middleware in front of an arbitrary stateful downstream `next`
@@ -277,6 +329,7 @@ inductive Resp (ρ : Type) where
 def serve {σ ρ : Type} (g : Global) (next : σ → Req → σ × Option ρ) (s : σ) (r : Req) : σ × Resp ρ :=
   if (wrap g r).effects == [.next] then ((next s r).1, .fromNext (next s r).2)
   else if (wrap g r).effects == [.formerr] then (s, .formerr)
+  else if (wrap g r).err then (s, .servfail)
   else (s, .nothing)
 
 /-- A history: final downstream state and the list of (request, what its client got). -/
@@ -286,5 +339,23 @@ def run {σ ρ : Type} (g : Global) (next : σ → Req → σ × Option ρ) : σ
     let st := serve g next s r
     let rest := run g next st.1 rs
     (rest.1, (r, st.2) :: rest.2)
+
+/-! ## The pooled `RequestInfo`
+
+`Wrap` takes the `agd.RequestInfo` from a `sync.Pool` and returns it when the handler is done, so the
+structure a request gets may still hold the data of an earlier — possibly rejected — request.
+`fillInfo` is `newRequestInfo` + `ri.Location, ri.ECS = loc, ecs` as assignments over the pooled
+value. -/
+
+def fillInfo (_pooled : RI) (r : Req) : RI :=
+  let ri := _pooled
+  -- ri.DeviceResult = nil; ri.ECS = nil; ri.Location = nil
+  let ri := { ri with dev := .none, ecs := false, asn := Option.none }
+  -- ri.RemoteIP = raddr.Addr(); ri.Host = NormalizeDomain(q.Name); ri.QType; ri.QClass
+  let ri := { ri with remote := r.addr, host := normDomain r.qname, qtype := r.qtype, qclass := r.qclass }
+  -- ri.DeviceResult = mw.deviceFinder.Find(...)
+  let ri := { ri with dev := r.dev.kind }
+  -- ri.Location, ri.ECS = loc, ecs
+  { ri with asn := r.asn, ecs := r.ecsOk && !r.ecsBad }
 
 end Agd.Access
